@@ -47,6 +47,7 @@ class Contract:
     at_yield: list[str] = field(default_factory=list)  # @contextmanager: clauses that must hold when the with-body starts
     guard: str = ''  # variants of one function told apart by a condition on the arguments: assumed for the variant's own proof, decided (forked) at call sites
     kwparam: str = ''  # name of the function's **kwargs parameter: keyword arguments outside `sig` are collected into it
+    merge_ifs: bool = False  # if-chains that only assign local names are executed as one path (values merged with ite)
     varparam: str = ''  # name of the function's *args parameter: positional arguments beyond the named ones are collected into it (an array-backed list)
     theories: list[str] = field(default_factory=list)  # optional trusted theories instantiated on the paths of this function (e.g. 'display_width')
 
@@ -341,11 +342,17 @@ def bind_params(ip: Interp, c: Contract, recv, args, kwargs, n) -> dict:
         es = S.sort_of(elem)
         arr = ip.p.fresh('varargs_a', z3.ArraySort(z3.IntSort(), es))
         extra_vals = vals[at:]
+        from .interp import StarV
+        if len(extra_vals) == 1 and isinstance(extra_vals[0], StarV) and isinstance(extra_vals[0].value, ArrList) \
+                and extra_vals[0].value.elem == elem:
+            extra_vals, star = [], extra_vals[0].value  # f(*xs): the list itself
+        else:
+            star = None
         for j, x in enumerate(extra_vals):
             if elem.startswith('arrlist['):
                 x = ip.to_arrlist(x, elem[len('arrlist['):-1], n)
             arr = z3.Store(arr, j, ip.coerce_sort(x, es, n))
-        vals = vals[:at] + [ArrList(arr, z3.IntVal(len(extra_vals)), elem)]
+        vals = vals[:at] + [star if star is not None else ArrList(arr, z3.IntVal(len(extra_vals)), elem)]
     if len(vals) > len(names):
         ip.oos(f'call of {c.key}: too many positional arguments', n)
     for i, name in enumerate(names):
